@@ -341,3 +341,17 @@ def ob_xarrays_from_regions(env):
 OBLIGATIONS.append(Ob("x_arrays_collected_from_y_groups", ob_xarrays_from_regions, tier="quick", family="collection", encodes=["hypnotoad.core.mesh:BoutMesh.geometry"],
                       desc="ShiftAngle / total_poloidal_distance: centre AND xlow of the global x-array take the value of the first region of each y-group over its radial range, "
                            "also when that region does not start at y=0 (the core of every X-point topology)", bounds="4 regions in 3 y-groups, values symbolic"))
+
+
+def _ygroups(kind):
+    def body(env):
+        import harness.c08 as m   # resolved at call time
+        return m._mk_ygroups(kind)(env)
+    return body
+
+
+for _k in ("lsn", "cdn", "ldn", "udn", "circular_core"):
+    OBLIGATIONS.append(Ob("origin_of_the_closed_surface_integrals_" + _k, _ygroups(_k), tier="quick", family="calcZShift",
+                          encodes=["hypnotoad.core.mesh:Mesh.makeRegions"],
+                          desc="the chain of y-connected core regions starts at its first region in y-index order (where the integrated quantity is zero): shared with C08",
+                          bounds="real constructor on symbolic sizes", max_paths=400))
